@@ -502,6 +502,10 @@ class Inliner:
                     tail = last.value
                     body = body[:-1]
                 else:
+                    lr = self.splice_loop_returns(h, body, env, skip_self,
+                                                  kind, target)
+                    if lr is not None:
+                        return lr
                     return self.splice_ifchain(h, body, env, skip_self,
                                                kind, target)
         self.counter += 1
@@ -683,6 +687,83 @@ class Inliner:
                 r2 = Y().visit(st2)
                 out.extend(r2 if isinstance(r2, list) else [r2])
         return out or [ast.Pass()]
+
+    def splice_loop_returns(self, h, body, env, skip_self, kind, target):
+        """``t = h(..)`` where h ends in ``while True:`` and returns only
+        from inside that loop (not from a nested loop, no break of its own):
+        every ``return v`` becomes ``t = v; break``."""
+        if kind != 'assign' or not body or len(target) != 1 or \
+                not isinstance(target[0], ast.Name):
+            return None
+        loop = body[-1]
+        if not (isinstance(loop, ast.While) and isinstance(
+                loop.test, ast.Constant) and loop.test.value is True
+                and not loop.orelse):
+            return None
+        for st in body[:-1]:
+            if any(isinstance(x, ast.Return) for x in ast.walk(st)):
+                return None
+
+        def ok_block(stmts, nested):
+            for st in stmts:
+                if isinstance(st, (ast.FunctionDef, ast.Lambda)):
+                    return False
+                if isinstance(st, ast.Break) and not nested:
+                    return False
+                if isinstance(st, ast.Return) and nested:
+                    return False
+                if isinstance(st, (ast.For, ast.While)):
+                    if not ok_block(st.body + st.orelse, True):
+                        return False
+                    continue
+                for fld in ('body', 'orelse', 'finalbody'):
+                    b = getattr(st, fld, None)
+                    if isinstance(b, list) and b and isinstance(
+                            b[0], ast.stmt) and not ok_block(b, nested):
+                        return False
+                if getattr(st, 'handlers', None):
+                    return False
+            return True
+
+        if not ok_block(loop.body, False):
+            return None
+        self.counter += 1
+        suffix = f'__inl{self.counter}'
+        assigned = _assigned_names(body)
+        tname = target[0].id
+        if tname in assigned:
+            return None
+        ren = {n: n + suffix for n in assigned
+               if n not in env and n in self.caller_names}
+        full = dict(env)
+        full.update(ren)
+        pre = []
+        for pn in [p_ for p_ in env if not isinstance(env[p_], list)
+                   and (p_ in assigned or _needs_local(p_, env[p_], body))]:
+            pre.append(ast.Assign(
+                targets=[ast.Name(id=pn + suffix, ctx=ast.Store())],
+                value=clone(env[pn])))
+            full[pn] = pn + suffix
+
+        class R(ast.NodeTransformer):
+
+            def visit_FunctionDef(self_, n):
+                return n
+
+            def visit_Return(self_, n):
+                val = n.value if n.value is not None else ast.Constant(
+                    value=None)
+                return [ast.Assign(targets=[ast.Name(id=tname,
+                                                     ctx=ast.Store())],
+                                   value=val), ast.Break()]
+
+        new = [R().visit(st) for st in body]
+        sub = _Subst(full)
+        res = list(pre)
+        for st in new:
+            r = sub.visit(st)
+            res.extend(r if isinstance(r, list) else [r])
+        return res
 
     def splice_ifchain(self, h, body, env, skip_self, kind, target):
         """Helper whose top-level statements are `if c: ...; return e` arms
